@@ -67,7 +67,13 @@ Definition read_edges (r : read) : list (nat * nat) :=
 Definition col_edges (reads : list read) : list (nat * nat) := flat_map read_edges reads.
 Definition columns (reads : list read) : list nat :=
   nodup Nat.eq_dec (flat_map (fun r => map (fun (e : entry) => let '(c, _, _) := e in c) r) reads).
-Definition comp_of (reads : list read) (c : nat) : nat := naive_min (columns reads) (col_edges reads) c.
+(* computed with the (proved) union-find model: representative = minimum of the component *)
+Definition comp_state (reads : list read) : uf :=
+  urun_state (uf_init (columns reads)) (map (fun e => UMerge (fst e) (snd e))
+                                            (filter (fun e => negb (Nat.eqb (fst e) (snd e))) (col_edges reads))).
+Definition comp_in (s : uf) (c : nat) : nat :=
+  match find s c with inl (r, _) => r | inr _ => c end.
+Definition comp_of (reads : list read) (c : nat) : nat := comp_in (comp_state reads) c.
 
 Definition pair_eqb (x y : bool * bool) : bool := Bool.eqb (fst x) (fst y) && Bool.eqb (snd x) (snd y).
 Definition swap (x : bool * bool) : bool * bool := (snd x, fst x).
@@ -79,10 +85,10 @@ Definition orient (h truth : haps) (c : nat) : option bool :=
 Definition obool_eqb (a b : option bool) : bool :=
   match a, b with Some x, Some y => Bool.eqb x y | None, None => true | _, _ => false end.
 Definition truth_up_to_flip (reads : list read) (cols : list nat) (h truth : haps) : bool :=
-  forallb (fun c => match orient h truth c with None => false | Some _ => true end) cols &&
-  forallb (fun c => forallb (fun c' =>
-     negb (Nat.eqb (comp_of reads c) (comp_of reads c')) || obool_eqb (orient h truth c) (orient h truth c'))
-     cols) cols.
+  let st := comp_state reads in
+  let tab := map (fun c => (comp_in st c, orient h truth c)) cols in
+  forallb (fun x => match snd x with None => false | Some _ => true end) tab &&
+  forallb (fun x => forallb (fun y => negb (Nat.eqb (fst x) (fst y)) || obool_eqb (snd x) (snd y)) tab) tab.
 
 (* L1 on the output VCF: phased calls of one sample as (phase set id, written pair, true pair) *)
 Definition call := (Z * (bool * bool) * (bool * bool))%type.
